@@ -48,7 +48,16 @@ BalanceClauses(e) ==
      <<"witnessWeightsExact", o.mode = "trans" \/ \A i \in Bins(e) :
           (~IsNaN(t, px, o, i) /\ WitnessScale(t, px, o, ScopeOf(t, o, i)) > 0) =>
              e.obs.w[i + 1] = WitnessWeightScaled(WitnessScale(t, px, o, ScopeOf(t, o, i)), o.rescale)>>,
-     <<"witnessScaleAndConvergence",
+     \* the statistics come per chromosome in cis-only mode, once otherwise
+     <<"statsPerScope", Len(e.obs.converged) = (IF o.mode = "cis" THEN NChroms(t) ELSE 1) /\ Len(e.obs.scale) = Len(e.obs.converged)>>,
+     \* with a single iteration allowed, convergence can be reported exactly for the scopes whose (integer) marginals are
+     \* already flat - a scope with unequal marginals has NOT converged, whatever another scope did
+     <<"convergenceReportedTruthfully", ~("max_iters" \in DOMAIN o /\ o.max_iters = 1 /\ o.mode # "trans") \/
+          LET Scopes == IF o.mode = "cis" THEN [c \in 1..NChroms(t) |-> ChromBins(t, c - 1)] ELSE <<AllBins(t)>> IN
+          Len(e.obs.converged) = Len(Scopes) /\ \A c \in DOMAIN Scopes :
+             LET D == BinsWithData(t, px, o, Scopes[c]) IN
+             D = {} \/ (e.obs.converged[c] = (\A i, j \in D : LiveMarg(t, px, o, i) = LiveMarg(t, px, o, j)))>>,
+     <<"witnessScaleAndConvergence", Len(e.obs.converged) # (IF o.mode = "cis" THEN NChroms(t) ELSE 1) \/ Len(e.obs.scale) # Len(e.obs.converged) \/
           IF o.mode = "cis"
             THEN \A c \in 0..(NChroms(t) - 1) :
                    WitnessScale(t, px, o, ChromBins(t, c)) > 0 =>
